@@ -121,6 +121,19 @@ func (g *fgen) findLoops() {
 		li.ordinal = i + 1
 		if g.fc != nil {
 			li.spec = g.fc.loops[li.ordinal]
+			// type invariants (sugar) are carried by every loop of the method
+			if len(g.fc.autoLoopInv) > 0 {
+				ns := &loopSpec{}
+				if li.spec != nil {
+					*ns = *li.spec
+					ns.invariants = append([]clause{}, li.spec.invariants...)
+				}
+				for k, c := range g.fc.autoLoopInv {
+					c.label = fmt.Sprintf("loop%d-typeinv:%d", li.ordinal, k+1)
+					ns.invariants = append(ns.invariants, c)
+				}
+				li.spec = ns
+			}
 		}
 		ms := newModset()
 		kg := g.w.keygen()
@@ -334,9 +347,9 @@ type funcResult struct {
 	nblocks int
 }
 
-func (w *world) verifyFunc(fn *ssa.Function, fc *funcContract) *funcResult {
+func (w *world) verifyFunc(fn *ssa.Function, fc *funcContract) (res *funcResult) {
 	g := newFgen(w, fn, fc)
-	res := &funcResult{fn: shortPkg(g.pkgPath) + "." + g.key, key: g.key, pkgPath: g.pkgPath}
+	res = &funcResult{fn: shortPkg(g.pkgPath) + "." + g.key, key: g.key, pkgPath: g.pkgPath}
 	defer func() {
 		if r := recover(); r != nil {
 			if te, ok := r.(transErr); ok {
@@ -451,7 +464,7 @@ func (g *fgen) run() {
 			} else {
 				var extra []string
 				for k := range ms.any {
-					if _, ok := declared.any[k]; !ok {
+					if _, ok := declared.any[k]; !ok && !declared.coarse(k) {
 						extra = append(extra, k)
 					}
 				}
@@ -624,29 +637,21 @@ func (g *fgen) block(b *ssa.BasicBlock) {
 			}
 		}
 		g.assertGinvs(st, "ginv-loop-entry", fmt.Sprintf("loop%d", li.ordinal), token.NoPos)
-		oldAlloc := st.alloc
-		if li.mods.all {
-			g.havocAll(st)
-		} else {
-			for k, me := range li.mods.any {
-				me.register(g, k)
-				g.havocKey(st, k)
-			}
-			for k, me := range li.mods.fresh {
-				if _, dup := li.mods.any[k]; dup {
-					continue
-				}
-				me.register(g, k)
-				g.havocKeyFresh(st, k, oldAlloc)
-			}
-			na := g.fresh("alloc", "Int")
-			g.fact("true", fmt.Sprintf("(>= %s %s)", na, st.alloc))
-			st.alloc = na
+		{
+			lm := *li.mods
+			lm.allocs = true
+			g.applyModset(&lm, st, fmt.Sprintf("loop %d", li.ordinal))
 		}
 		li.phiVals = map[*ssa.Phi]string{}
 		for _, phi := range phis {
 			v := g.defineUnknown(phi, st)
 			li.phiVals[phi] = v.t
+			if phi.Comment == "rangeindex" && len(phi.Edges) == 2 {
+				// hidden index of a `range` loop: starts at -1, stepped by +1 while < len
+				if c, ok := phi.Edges[0].(*ssa.Const); ok && c.Value != nil && c.Value.ExactString() == "-1" {
+					g.fact("true", fmt.Sprintf("(>= %s (- 1))", v.t))
+				}
+			}
 		}
 		g.assumeGinvs(st)
 		if li.spec != nil {
@@ -832,17 +837,44 @@ func (g *fgen) instr(in ssa.Instruction, st *state) {
 	case *ssa.Panic:
 		g.panicInstr(x, st)
 	case *ssa.Defer:
-		for _, rb := range g.fn.Blocks {
-			for _, ri := range rb.Instrs {
-				if _, ok := ri.(*ssa.RunDefers); ok && !(x.Block() == rb || x.Block().Dominates(rb)) {
-					g.unsupported("conditional defer")
-				}
+		for _, li := range g.loops {
+			if li.body[x.Block()] {
+				g.unsupported("defer inside a loop")
 			}
 		}
 		g.defers = append(g.defers, x)
+		if g.deferGuard == nil {
+			g.deferGuard = map[*ssa.Defer]string{}
+		}
+		g.deferGuard[x] = g.curGuard
 	case *ssa.RunDefers:
 		for i := len(g.defers) - 1; i >= 0; i-- {
-			g.call(g.defers[i], st)
+			d := g.defers[i]
+			rb := x.Block()
+			if d.Block() == rb || d.Block().Dominates(rb) {
+				g.call(d, st)
+				continue
+			}
+			// conditional defer: executed iff the path went through the defer's block
+			dg := g.deferGuard[d]
+			if dg == "" {
+				continue // defer in a block not yet processed cannot reach here
+			}
+			saved := g.curGuard
+			st0 := st.clone()
+			st1 := st.clone()
+			g.curGuard = and(saved, dg)
+			g.call(d, st1)
+			g.curGuard = saved
+			ep := g.newEpoch([]epochPred{{dg, st1}, {not(dg), st0}})
+			st.heap = map[string]string{}
+			st.epoch = ep
+			if st1.alloc != st0.alloc {
+				na := g.fresh("alloc", "Int")
+				g.fact(dg, fmt.Sprintf("(= %s %s)", na, st1.alloc))
+				g.fact(not(dg), fmt.Sprintf("(= %s %s)", na, st0.alloc))
+				st.alloc = na
+			}
 		}
 	case *ssa.Go:
 		g.unsupported("go statement")
